@@ -1,5 +1,7 @@
 package py
 
+import "math/big"
+
 // C10 — no operator, subscript form, attribute access or call applied to
 // arguments of any types and values panics: every failure comes back as an
 // error value. The harnesses assert nothing themselves: the engine reports any
@@ -51,11 +53,13 @@ func c10Value(name string, kinds int, rich bool) Object {
 	case 4:
 		return String(c10Strings[c10Pick(name+"_s", len(c10Strings), rich, 3)])
 	case 5:
-		switch c10Pick(name+"_t", 3, rich, 1) {
+		switch c10Pick(name+"_t", 4, rich, 1) {
 		case 0:
 			return Tuple{}
 		case 1:
 			return Tuple{Int(verifInt64(name + "_t0"))}
+		case 3:
+			return Tuple{Tuple{Int(1)}, Bytes("x"), NewList()}
 		}
 		return Tuple{Int(1), String("a"), None}
 	case 6:
@@ -72,6 +76,15 @@ func c10Value(name string, kinds int, rich bool) Object {
 		}
 		return StringDict{"a": Int(1), "b": String("x")}
 	case 8:
+		// compact: fixed big ints (2**64, -(2**64)-1, 2**100); all variants: any 80-bit value
+		if !rich {
+			b := NewBigIntShift([]uint{64, 64, 100}[verifChoice(name+"_bigc", 3)]).(*BigInt)
+			if verifChoiceOf(name+"_bigc") == 1 {
+				v := new(big.Int).Neg((*big.Int)(b))
+				b = (*BigInt)(v.Sub(v, big.NewInt(1)))
+			}
+			return b
+		}
 		return (*BigInt)(verifBigInt(name+"_big", 80))
 	case 9:
 		return Bytes(c10Strings[c10Pick(name+"_y", len(c10Strings), rich, 3)])
@@ -330,3 +343,5 @@ func VerifC10IntText() {
 
 // VerifC10Scalar: the scalar kinds only (int, None, bool, float, str).
 func VerifC10Scalar(name string) Object { return c10Value(name, 5, false) }
+
+func VerifC10IsInt(o Object) bool { return c10IsInt(o) }
